@@ -42,10 +42,10 @@ def hist_stats(res: Result, hist, run: pipe.Run):
             res.hist("op_kinds", k)
 
 
-def execute(hist, cfg, init_tree=None, before_close=None):
+def execute(hist, cfg, init_tree=None, before_close=None, late_at=()):
     recursive, full, kind = cfg
     from harness import gated
-    run = pipe.Run(recursive=recursive, full=full, path_kind=kind, init_tree=init_tree)
+    run = pipe.Run(recursive=recursive, full=full, path_kind=kind, init_tree=init_tree, late_at=late_at)
     extra = None
     case = None
     run.hang = None
@@ -56,7 +56,7 @@ def execute(hist, cfg, init_tree=None, before_close=None):
                 extra = before_close(run)
         except gated.Hang as e:
             run.hang = str(e)          # a library thread (or the queue's task accounting) got stuck: a failure with this history
-        case = run.model_case()
+        case = run.model_case() if not late_at else None
     finally:
         try:
             stopped = run.close()
